@@ -1,5 +1,5 @@
 //! Engine `rt`: DSL programs × shell histories on the real crux_core runtime.
-//!   rt gen <seed> <n> [profile]     profiles: mix | comb | task | core | cancel
+//!   rt gen <seed> <n> [profile]     profiles: mix | comb | task | core | cancel | bcancel
 //!   rt run
 //! case : `(direct CMD (ACTION*))` | `(core ((TAG CMD)*) (ACTION*))`
 use crux_core::bridge::{Bridge, BridgeError, BridgeWithSerializer};
@@ -867,6 +867,43 @@ fn gen(seed: u64, n: usize, profile: &str) {
                     h.retain(|a| a.form().map(|(n, _)| n != "drop").unwrap_or(true));
                 }
                 list(vec![atom("hosts"), c.sexp(), list(h)])
+            }
+            "bcancel" => {
+                // cancellation behind the serialized bridge: abortable commands, aborts, then LATE responses — several of
+                // them, repeatedly to the same request — for work that has been cancelled (C06 through C09's path)
+                g.allow_abortable = true;
+                let mut prog = vec![];
+                for t in 1..=3u32 {
+                    g.emit_tags = (t + 1..=3).chain([10, 11]).collect();
+                    if t == 1 || g.r.chance(2, 3) {
+                        let c = g.cmd(3, 5, 4);
+                        prog.push(list(vec![atom(t), c.sexp()]));
+                    }
+                }
+                let json = g.r.chance(1, 2);
+                let mut h = g.history(7, true, &[1, 2, 3, 7]);
+                if g.next_abort > 0 && !h.iter().any(|a| a.form().map(|(n, _)| n == "abort").unwrap_or(false)) {
+                    let pos = 1 + g.r.below(h.len() as u64) as usize;
+                    h.insert(pos.min(h.len()), list(vec![atom("abort"), atom(g.r.below(g.next_abort as u64))]));
+                }
+                let mut out = vec![];
+                let mut payload = 500i64;
+                for a in h {
+                    let is_abort = a.form().map(|(n, _)| n == "abort").unwrap_or(false);
+                    out.push(a);
+                    if is_abort {
+                        let k = g.r.below(3);
+                        for _ in 0..2 + g.r.below(3) {
+                            payload += 1;
+                            let kk = if g.r.chance(2, 3) { k } else { g.r.below(4) };
+                            out.push(list(vec![atom("res"), atom(kk), atom(payload)]));
+                            if g.r.chance(1, 4) {
+                                out.push(list(vec![atom("ev"), atom(1), atom(g.r.below(5))]));
+                            }
+                        }
+                    }
+                }
+                list(vec![atom(if json { "jbridge" } else { "bridge" }), list(prog), list(out)])
             }
             "bridge" | "malformed" => {
                 g.allow_abortable = g.r.chance(1, 4);
